@@ -54,6 +54,14 @@ pub fn generate(g: &mut Gen, thorough: bool) {
         let ellps = *g.rng.pick(&proj::ELLPS);
         let geo: Vec<[f64; 4]> = (0..8).map(|_| [g.rng.uniform(-3.1, 3.1), g.rng.uniform(-1.55, 1.55), g.rng.uniform(-10000.0, 100000.0), 2000.0]).collect();
         g.push(format!("S_C14\tcart\t{ellps}\t\t{}", data_of(&geo)), "oracle-cart-ellipsoid", true);
+        // (millimetres to metres from the axis, at both poles: the two routes resolve them alike)
+        let hp = std::f64::consts::FRAC_PI_2;
+        let axis: Vec<[f64; 4]> = [1e-3, 3e-3, 1e-2, 0.1, 1.0, 10.0, 4e-4, 2e-3]
+            .iter()
+            .enumerate()
+            .map(|(i, d)| [g.rng.uniform(-3.0, 3.0), (hp - d / 6.4e6) * if i % 2 == 0 { 1.0 } else { -1.0 }, [0.0, 500.0, -100.0, 9.0e4][i % 4], 2000.0])
+            .collect();
+        g.push(format!("S_C14\tcart\t{ellps}\t\t{}", data_of(&axis)), "oracle-cart-ellipsoid-next-to-the-axis", true);
         // (a position without an epoch - what every 2-D and 3-D container delivers - is a position all the same)
         let timeless: Vec<[f64; 4]> = geo.iter().take(4).map(|p| [p[0], p[1], p[2], f64::NAN]).collect();
         g.push(format!("S_C14\tcart\t{ellps}\t\t{}", data_of(&timeless)), "oracle-cart-ellipsoid-no-epoch", true);
